@@ -175,3 +175,21 @@ Proof.
   split; [discriminate|]. split; [reflexivity|]. split; [reflexivity|].
   eexists; eexists. split; [vm_compute; reflexivity|]. split; reflexivity.
 Qed.
+
+(** C09: a value that is valid for the characteristic (a fixpoint of conversion and clamping) is
+    stored exactly, and the callback carries exactly it, when it differs from the stored value *)
+Lemma update_valid c v o chk :
+  convert true (format c) v = Some v -> clamp c v = v -> p_read c = true -> (chk = true -> p_write c = true) ->
+  declared (format c) -> bounds_ok c = true -> well_typed c = true ->
+  exists c' cbs, update true c v o chk = Ok (c', cbs) /\ cvalue c' = Some v \/
+                 (update true c v o chk = Ok (c, []) /\ iface_eq (cvalue c) v = Some true).
+Proof.
+  intros Hc Hcl Hr Hw Hd Hb Hwt.
+  destruct (update_well_typed c v o chk Hd Hb Hwt) as (c' & cbs & E & _).
+  unfold update in *. rewrite Hc, Hcl in *.
+  destruct (iface_eq (cvalue c) v) as [[|]|] eqn:Ee; try discriminate.
+  - exists c, []. right. auto.
+  - assert (Hp : (chk && negb (p_write c))%bool = false).
+    { destruct chk; [rewrite (Hw eq_refl); reflexivity|reflexivity]. }
+    rewrite Hp in *. eexists; eexists. left. split; [reflexivity|]. cbn [cvalue]. rewrite Hr. reflexivity.
+Qed.
